@@ -32,7 +32,34 @@ def run(props=None, verbose=False, tier="quick", quiet=False):
     return bad, vs, res
 
 
+def run_global():
+    """Every check on every global benign twin: none may report a VIOLATION."""
+    from selftest.variants import G
+    jobs = []
+    for g in G:
+        for i in range(1, 21):
+            jobs.append({"prop": "C%02d" % i, "name": g["name"], "edits": g["edits"], "expect": "silent" if g["strict"] else "not-violated"})
+    with ThreadPoolExecutor(16) as ex:
+        res = list(ex.map(lambda v: run_variant(v, "quick"), jobs))
+    bad = 0
+    und = 0
+    for v, r in zip(jobs, res):
+        if r["rc"] == 2:
+            und += 1
+        if not r["ok"]:
+            bad += 1
+            print("FAIL %s rc=%s on twin: %s" % (v["prop"], r["rc"], v["name"]))
+            tail = [l for l in r["out"].splitlines() if l.strip()][-4:]
+            print("     " + "\n     ".join(x[:260] for x in tail))
+        elif r["rc"] == 2:
+            print("note %s UNDECIDED on twin: %s" % (v["prop"], v["name"]))
+    print("%d twin x check runs, %d unexpected, %d undecided" % (len(jobs), bad, und))
+    return bad
+
+
 if __name__ == "__main__":
+    if "--global" in sys.argv:
+        sys.exit(1 if run_global() else 0)
     args = [a for a in sys.argv[1:] if not a.startswith("-")]
     bad, _, _ = run(set(args) or None, "-v" in sys.argv)
     sys.exit(1 if bad else 0)
